@@ -514,6 +514,14 @@ def r_depth(e, R):
     inst = [n for n in wg.nodes if n.kind == "stmt" and isinstance(n.ast, ast.Assign) and isinstance(n.ast.targets[0], ast.Name) and n.ast.targets[0].id == depth_glob]
     R.check(bool(inst) and all(any(wg.dominates(i, x) for i in inst) for x in gets), "R-DEPTH", "worker: installs the shipped depth before serving tasks", w.short,
             f"{depth_glob} = current_depth", "tasks can run (and create nested executors) before the worker knows its depth", e.loc(w, w.node))
+    # ... and before *any* user code runs in the worker: the initializer is user code too (it may build an executor)
+    user_calls = [n for n in wg.nodes for c in calls_in(n) if isinstance(c.func, ast.Name) and c.func.id in w.params]
+    if not user_calls:
+        raise AnalysisError("worker: the initializer call (a call of one of the worker's own parameters) not found")
+    for u in user_calls:
+        R.check(bool(inst) and any(wg.dominates(i, u) for i in inst), "R-DEPTH", "worker: installs the shipped depth before the initializer runs", w.short,
+                norm(u.ast)[:60], "the initializer (user code) runs while the worker still believes it is at depth 0: an executor built by an "
+                "initializer passes the depth check at any real depth, and its workers are again told depth 1", e.loc(w, u.ast))
     writers = [f for f in e.prog.funcs.values() if f.module.name == PE and f.kind != "module" and depth_glob in f.globals_decl and
                any(isinstance(n, ast.Name) and n.id == depth_glob and isinstance(n.ctx, ast.Store) for n in func_nodes(f))]
     R.check({f.qualname for f in writers} == {w.qualname}, "R-DEPTH", "only the worker main writes the depth global", PE, str([f.short for f in writers]),
